@@ -9,23 +9,11 @@ part of the Boolean skeleton (connectives, quantifiers, Boolean `ite`, Boolean c
 value of a quantifier-free Boolean formula is a function of the values of its atoms.
 -/
 namespace PySMT.Oracles
-open PySMT.Gen.Operators
-
-/-- node of the Boolean skeleton -/
-def isSkel (t : Term) : Bool :=
-  match t.op with
-  | .and | .or | .not | .implies | .iff | .forall_ | .exists_ | .boolConst => true
-  | .ite => t.typeOf == some .bool
-  | _ => false
-
-/-- maximal sub-terms below the Boolean skeleton -/
-def atomsDef : Term → List Term
-  | .node op args p =>
-    if isSkel (.node op args p) then (args.map atomsDef).flatten else [.node op args p]
+open PySMT.Gen.Operators PySMT.Analyses
 
 theorem atomsDef_node (op args p) : atomsDef (.node op args p) =
     if isSkel (.node op args p) then (args.map atomsDef).flatten else [.node op args p] := by
-  rw [atomsDef.eq_def]
+  rw [atomsDef.eq_def]; try rfl
 
 theorem atomsO_node (op args p) : atomsO (.node op args p) =
     atomsNode op p (.node op args p) (Term.node op args p).typeOf (args.map atomsO) := by
@@ -352,21 +340,6 @@ theorem atomsO_spec : (t : Term) → t.wt = true → ∀ τ, t.typeOf = some τ 
 
 /-! ### the value of a quantifier-free Boolean formula is a function of the values of its atoms -/
 
-/-- value of the Boolean skeleton, given the truth values `ρ` of the atoms -/
-def skelEval (ρ : Term → Bool) : Term → Bool
-  | .node op args p =>
-    if isSkel (.node op args p) then
-      match op, args.map (skelEval ρ), p with
-      | .and, bs, _ => bs.all id
-      | .or, bs, _ => bs.any id
-      | .not, [a], _ => !a
-      | .implies, [a, b], _ => !a || b
-      | .iff, [a, b], _ => a == b
-      | .ite, [c, a, b], _ => if c then a else b
-      | .boolConst, _, .b v => v
-      | _, _, _ => false
-    else ρ (.node op args p)
-
 theorem skelEval_node (ρ : Term → Bool) (op args p) : skelEval ρ (.node op args p) =
     if isSkel (.node op args p) then
       match op, args.map (skelEval ρ), p with
@@ -379,7 +352,7 @@ theorem skelEval_node (ρ : Term → Bool) (op args p) : skelEval ρ (.node op a
       | .boolConst, _, .b v => v
       | _, _, _ => false
     else ρ (.node op args p) := by
-  rw [skelEval.eq_def]
+  rw [skelEval.eq_def]; try rfl
 
 theorem isSkel_cases {op args p} (h : isSkel (.node op args p) = true) :
     op = .and ∨ op = .or ∨ op = .not ∨ op = .implies ∨ op = .iff ∨ op = .forall_ ∨ op = .exists_ ∨
